@@ -12,7 +12,7 @@ from sa.report import Ctx
 
 from .common import generic_sweeps
 
-from .cp_common import check_alldiff_coverage, flattener_tags, produced_tags, shape_dispatch_falls_through, structural_len_subjects
+from .cp_common import check_alldiff_coverage, check_id_allocation, flattener_tags, produced_tags, shape_dispatch_falls_through, structural_len_subjects
 
 EXPLANATION = (
     "Decides structural necessary conditions of 'the CNF has exactly the CP models' on cp_encoder.py: (O1) the "
@@ -23,7 +23,7 @@ EXPLANATION = (
     "that compares the size of a collection with a literal (cardinality cut-off) - only emptiness, domain-membership "
     "and arithmetic guards may skip; (O4) no structural shape dispatch of linear constraints falls through silently "
     "and the encoder's linearisation consumes (or loudly rejects) every expression tag; (O5) decoding reads, for each "
-    "named variable, only that variable's own literals and returns a value of its domain. NOT decided: clause-level "
+    "named variable, only that variable's own literals and returns a value of its domain. (O7) each boolean-id counter is written only by its initialisation and its allocator, auxiliary variables draw their literals from the encoder's allocator, and the encoder stores nothing in the model. NOT decided: clause-level "
     "correctness of each pairwise / partial-sum / MTZ / time-indexed encoding."
 )
 
@@ -193,6 +193,7 @@ def run(ctx: Ctx):
     ctx.floor("_encode_* functions", n_enc, 13)
 
     check_alldiff_coverage(ctx, "C06-O6")
+    check_id_allocation(ctx, "C06-O7")
 
     # O4 dispatch totality / expression tags
     ctags, etags = produced_tags(ctx)
@@ -305,6 +306,17 @@ def _v_shape_again(tree):
     )
 
 
+def _v_resync_counter(tree):
+    g = M.find_func(tree, "SATEncoder._create_int_var")
+    M.replace_stmt(g, lambda s: isinstance(s, ast.For) and M.src_has(s, "self._new_bool_var()"), M.stmts("self._next_bool = self.model._next_bool"))
+    M.replace_stmt(g, lambda s: M.src_is(s, "var.bool_vars = {}"), [])
+
+
+def _v_aux_registered(tree):
+    g = M.find_func(tree, "SATEncoder._create_int_var")
+    M.replace_stmt(g, lambda s: isinstance(s, ast.Return), lambda s: M.stmts("self.model._vars[name] = var") + [s])
+
+
 def _t_reformat(tree):
     pass
 
@@ -331,5 +343,7 @@ VARIANTS = [
     M.Variant("exactly-one pass removed", ENC, _v_vars_after_solver, "ANALYSIS-ERROR"),
     M.Variant("decode drops some named variables", ENC, _v_decode_other_var, "C06-O5"),
     M.Variant("encoder dispatches on shapes again (original defect)", ENC, _v_shape_again, "C06-O4"),
+    M.Variant("auxiliary variables keep the model's literals and the encoder counter is re-synchronised (seed C05-D)", ENC, _v_resync_counter, "C06-O7"),
+    M.Variant("auxiliary variables are registered in the model and re-encoded by the next solve (original defect)", ENC, _v_aux_registered, "C06-O7"),
     M.Variant("twin: reformat", ENC, _t_reformat, None),
 ]
